@@ -10,7 +10,7 @@ from ..stateful import Mismatch
 
 PROPERTY = 'C15'
 RULE = ("sum, cumsum, prod, cumprod, dot, matmul, trace, max, min, sort, clip, transpose, diagonal on fixed-point arrays of shapes (1..8,) and up to 3x3, n_word<=12, through the numpy function and the method, "
-        "axis None, any valid axis, both axes as a tuple, keepdims (diagonal/trace also with axis1/axis2 exchanged; transpose: no axes / any permutation as axes / .T; clip: both limits, one limit, list and ndarray limits which must come back unmodified); elements all-lowest, all-highest, alternating extremes or random; dot/matmul with a second operand of independent format and signedness (1-d.1-d, 2-d.1-d, 2-d.2-d). "
+        "axis None, any valid axis, both axes as a tuple, keepdims (diagonal/trace also with axis1/axis2 exchanged; transpose: no axes / any permutation as axes / .T; clip: both limits, one limit, list / ndarray / fixed-point limits which must come back unmodified, raw and repr method); elements all-lowest, all-highest, alternating extremes or random; dot/matmul with a second operand of independent format and signedness (1-d.1-d, 2-d.1-d, 2-d.2-d). "
         "Oracle: the same numpy reduction applied to an object array of Fractions built from the codes (numpy only iterates, the arithmetic is Fraction's): exact values and shape; result is an Fxp; "
         "no overflow/underflow flag for the accumulating functions; both routes agree. Result word <=53 (prod/cumprod only when n*n_word<=53). "
         "Non-trivial = >=2 elements with at least one extreme, or axis not None, or mixed signedness in dot; distinct = distinct case keys.")
@@ -69,7 +69,7 @@ def check_func(ctx, case):
         hi_v = Fraction(case['clip'][1][0], case['clip'][1][1])
         bounds = case.get('bounds', 'both')        # both | lo | hi | array | list
         expected = np.array([min(max(v, lo_v) if bounds != 'hi' else v, hi_v) if bounds != 'lo' else max(v, lo_v) for v in A.ravel().tolist()], dtype=object).reshape(A.shape)
-        sig += '/bounds:' + bounds
+        sig += '/bounds:' + bounds + ('/repr' if case.get('method', 'raw') == 'repr' else '')
     elif func == 'transpose':
         axes = case.get('axes')
         expected = np.transpose(A, axes=axes)
@@ -84,9 +84,17 @@ def check_func(ctx, case):
         raise ValueError(func)
 
     def do():
-        x = F(np.array(codes, dtype=np.int64).reshape(shape), fmt[0], fmt[1], fmt[2], raw=True)
+        x = F(np.array(codes, dtype=np.int64).reshape(shape), fmt[0], fmt[1], fmt[2], raw=True, op_method=case.get('method', 'raw'))
         before = C.flat(C.codes(x))
-        if func == 'clip':
+        if func == 'clip' and bounds == 'fxp':
+            # the limits are fixed-point objects themselves (same format as the array)
+            la, lb = F(float(lo_v), fmt[0], fmt[1], fmt[2]), F(float(hi_v), fmt[0], fmt[1], fmt[2])
+            if C.values(la) != [lo_v] or C.values(lb) != [hi_v]:
+                raise AssertionError('harness: limit objects do not hold the limits')
+            z = np.clip(x, la, lb) if route == 'numpy' else x.clip(la, lb)
+            if C.values(la) != [lo_v] or C.values(lb) != [hi_v]:
+                raise Mismatch('caller-limits-modified', {})
+        elif func == 'clip':
             a, b = float(lo_v), float(hi_v)
             if bounds == 'lo':
                 z = np.clip(x, a, None) if route == 'numpy' else x.clip(a)
@@ -214,7 +222,7 @@ def st_fmt15(draw, max_w=12):
 
 @st.composite
 def st_func(draw):
-    func = draw(st.sampled_from(ONE))
+    func = draw(st.sampled_from(ONE + ('clip', 'clip')))          # clip has the most argument forms
     shape = draw(st.sampled_from([[1], [2], [3], [5], [7], [8], [1, 1], [2, 2], [2, 3], [3, 2], [3, 3], [1, 3], [3, 1]]))
     if func in ('trace', 'diagonal') and len(shape) == 1:
         shape = draw(st.sampled_from([[2, 2], [3, 3], [2, 3], [3, 2]]))
@@ -247,7 +255,8 @@ def st_func(draw):
         den = 1 << max(fmt[2], 0)
         mul = 1 << max(-fmt[2], 0)
         case['clip'] = [[a * mul, den], [b * mul, den]]
-        case['bounds'] = draw(st.sampled_from(['both', 'both', 'lo', 'hi', 'array', 'list']))
+        case['bounds'] = draw(st.sampled_from(['both', 'lo', 'hi', 'array', 'list', 'fxp', 'fxp']))
+        case['method'] = draw(st.sampled_from(['raw', 'repr']))
     if func == 'transpose':
         kind_t = draw(st.sampled_from(['plain', 'axes', 'axes', 'T']))
         if kind_t == 'axes':
